@@ -298,6 +298,10 @@ def proof_stage(prop, timeout=3000):
     """regenerate Gen/, build Props/<prop>.vo, collect Print Assumptions.
     returns dict(ok, broken, detail, closed, axioms, obligations, files)."""
     res = {"ok": False, "broken": None, "detail": "", "closed": 0, "axioms": [], "obligations": 0, "files": []}
+    if os.environ.get("VERIF_CAMPAIGN"):
+        # mutation campaign, fast mode: go straight to the failing-input search (the proof stage is exercised separately)
+        res["broken"] = "campaign mode: proof stage skipped"
+        return res
     bad = common.hygiene()
     if bad:
         res["broken"] = "hygiene"
